@@ -359,6 +359,12 @@ class Arr:
         g, k = self.getter(), self.kind
         return (IdxSet(self.n, lambda i: _truth_pair(g(i), k)),)
 
+    def view(self, t=None):
+        # arr.view(np.ma.MaskedArray): a masked array over the same memory with no mask
+        if t is MArr or getattr(getattr(t, "__wrapped__", t), "__name__", "") in ("ma_array", "MArr"):
+            return MArr(self, None)
+        raise Unsupported("ndarray.view(%r)" % (t,))
+
     def _np(self, name, *a, **k):
         from . import npfuncs
 
@@ -1780,3 +1786,9 @@ class Arr2:
 @contextlib.contextmanager
 def _null_cm(*a, **k):
     yield
+
+
+from .ctx import guard_methods as _gm  # noqa: E402
+
+for _cls, _lab in ((Arr, "numpy.ndarray"), (MArr, "numpy.ma.MaskedArray"), (Selection, "numpy.ndarray"), (Arr2, "numpy.ndarray")):
+    _gm(_cls, _lab)
